@@ -78,6 +78,7 @@ def run(ck):
     ck.rule("C04.R7", "the std and no_std registries talk to collectors and callsites through the same set of calls", floor=4)
     ck.rule("C04.R9", "no_std registry: a first hit's interest-then-push is one step with respect to a rebuild (the std registry's lock, R1)", floor=1)
     ck.rule("C04.R10", "the collector that receives an emission is the one whose filter enabled it: one dispatcher lookup per emission", floor=1)
+    ck.rule("C04.R11", "`every callsite is offered to every collector that is live afterwards`: every constructor of a Dispatch registers it (as C01.R6)", floor=3)
     ck.rule("C04.R6", "collector wrappers pass register_callsite / on_register_dispatch / max_level_hint on to the wrapped collector (as C09.R1/R2)", floor=12)
     ck.rule("C04.R5", "every turnover re-evaluates interests and the max level (see C01.R5–R7)", floor=2)
     r1(ck, F)
@@ -88,6 +89,8 @@ def run(ck):
     r7(ck, F)
     r9(ck)
     r10(ck, F)
+    from rules import C01 as _C01
+    _C01.r6(ck, F, rid="C04.R11")
     from rules import C02
     C02.r1(ck, F, rid="C04.R8")
     # a collector reached through Box/Arc/Layered must itself be offered every callsite (C09.R1/R2, instantiated)
